@@ -212,8 +212,10 @@ def run(ctx):
                        "harness/asm_common.py builds real ICmd/ProtoSubroutine objects and text, runs assemble_subroutine / "
                        "parse_text_subroutine and a step-bounded subclass of the real Executor (only _execute_command and "
                        "_handle_command_exception are wrapped, to count steps and record the faulting line)")
-    ctx.assume.append("modelled, validated by correspondence only: character-level tokenising, comment stripping, preamble "
-                      "and macro substitution (Text.parse_text); the theorems start at the proto-command level")
+    ctx.assume.append("the text front end is proved at character level for canonical texts of proto-programs, their "
+                      "decorations (comments, blank lines, indentation, trailing blanks) and whole-token macros; other "
+                      "spellings of a text (blanks inside bracket args, braces around define values, ...) are validated by the "
+                      "correspondence with parse_text_protosubroutine only")
     ctx.assume.append("the source semantics covers set add sub addm subm load store lea undef array jmp bez bnz beq bne blt "
                       "bge ret_reg ret_arr; other instructions are 'outside the model' (Stuck) in source and target alike; "
                       "well-formed sources use labels (not line numbers) as branch targets and registers as destinations")
